@@ -16,6 +16,7 @@ import (
 
 // ---------------------------------------------------------------- go
 
+//go:norace
 func spawn(fn func()) {
 	if k := kern.Cur(); k != nil && k.Me() != nil {
 		k.Spawn("go", 0, nil, fn)
@@ -26,10 +27,19 @@ func spawn(fn func()) {
 	go fn()
 }
 
-func Go0(f func())                                      { spawn(f) }
-func Go1[A any](f func(A), a A)                         { spawn(func() { f(a) }) }
-func Go2[A, B any](f func(A, B), a A, b B)              { spawn(func() { f(a, b) }) }
-func Go3[A, B, C any](f func(A, B, C), a A, b B, c C)   { spawn(func() { f(a, b, c) }) }
+//go:norace
+func Go0(f func()) { spawn(f) }
+
+//go:norace
+func Go1[A any](f func(A), a A) { spawn(func() { f(a) }) }
+
+//go:norace
+func Go2[A, B any](f func(A, B), a A, b B) { spawn(func() { f(a, b) }) }
+
+//go:norace
+func Go3[A, B, C any](f func(A, B, C), a A, b B, c C) { spawn(func() { f(a, b, c) }) }
+
+//go:norace
 func Go4[A, B, C, D any](f func(A, B, C, D), a A, b B, c C, d D) {
 	spawn(func() { f(a, b, c, d) })
 }
@@ -42,8 +52,10 @@ type RecvCase[T any] struct {
 	OK bool
 }
 
+//go:norace
 func Recv[T any](ch <-chan T) *RecvCase[T] { return &RecvCase[T]{ch: ch} }
 
+//go:norace
 func (r *RecvCase[T]) Try() bool {
 	select {
 	case v, ok := <-r.ch:
@@ -59,8 +71,10 @@ type SendCase[T any] struct {
 	v  T
 }
 
+//go:norace
 func Send[T any](ch chan<- T, v T) *SendCase[T] { return &SendCase[T]{ch: ch, v: v} }
 
+//go:norace
 func (s *SendCase[T]) Try() bool {
 	select {
 	case s.ch <- s.v:
@@ -71,6 +85,8 @@ func (s *SendCase[T]) Try() bool {
 }
 
 // Select returns the index of the clause that fired or -1 for default.
+//
+//go:norace
 func Select(hasDefault bool, cases ...kern.SelCase) int {
 	if k := kern.Cur(); k != nil && k.Me() != nil {
 		return k.Select(hasDefault, cases)
@@ -103,6 +119,7 @@ type MapIter[K comparable, V any] struct {
 	i    int
 }
 
+//go:norace
 func rankLess(a, b any) (less bool, ok bool) {
 	switch x := a.(type) {
 	case string:
@@ -145,6 +162,7 @@ func rankLess(a, b any) (less bool, ok bool) {
 	return false, false
 }
 
+//go:norace
 func newIter[K comparable, V any](m map[K]V) *MapIter[K, V] {
 	it := &MapIter[K, V]{m: m}
 	k := kern.Cur()
@@ -181,23 +199,33 @@ func newIter[K comparable, V any](m map[K]V) *MapIter[K, V] {
 
 // RangeKV, RangeK, RangeV and RangeN start an iteration; the extra results are
 // zero values that declare the loop variables with the right types.
+//
+//go:norace
 func RangeKV[M ~map[K]V, K comparable, V any](m M) (*MapIter[K, V], K, V) {
 	var k K
 	var v V
 	return newIter[K, V](m), k, v
 }
+
+//go:norace
 func RangeK[M ~map[K]V, K comparable, V any](m M) (*MapIter[K, V], K) {
 	var k K
 	return newIter[K, V](m), k
 }
+
+//go:norace
 func RangeV[M ~map[K]V, K comparable, V any](m M) (*MapIter[K, V], V) {
 	var v V
 	return newIter[K, V](m), v
 }
+
+//go:norace
 func RangeN[M ~map[K]V, K comparable, V any](m M) *MapIter[K, V] { return newIter[K, V](m) }
 
 // next advances to the next key that is still present (an entry removed during
 // the iteration is not produced, as the language specifies).
+//
+//go:norace
 func (it *MapIter[K, V]) next() (K, V, bool) {
 	for it.i < len(it.keys) {
 		key := it.keys[it.i]
@@ -211,6 +239,7 @@ func (it *MapIter[K, V]) next() (K, V, bool) {
 	return k, v, false
 }
 
+//go:norace
 func (it *MapIter[K, V]) NextKV(kp *K, vp *V) bool {
 	k, v, ok := it.next()
 	if ok {
@@ -218,6 +247,8 @@ func (it *MapIter[K, V]) NextKV(kp *K, vp *V) bool {
 	}
 	return ok
 }
+
+//go:norace
 func (it *MapIter[K, V]) NextK(kp *K) bool {
 	k, _, ok := it.next()
 	if ok {
@@ -225,6 +256,8 @@ func (it *MapIter[K, V]) NextK(kp *K) bool {
 	}
 	return ok
 }
+
+//go:norace
 func (it *MapIter[K, V]) NextV(vp *V) bool {
 	_, v, ok := it.next()
 	if ok {
@@ -232,6 +265,8 @@ func (it *MapIter[K, V]) NextV(vp *V) bool {
 	}
 	return ok
 }
+
+//go:norace
 func (it *MapIter[K, V]) NextN() bool {
 	_, _, ok := it.next()
 	return ok
@@ -254,6 +289,8 @@ var _ PoolConn = (*grpc.ClientConn)(nil)
 
 // Dial wraps grpc.Dial with the PoolConn result type. A nil *grpc.ClientConn
 // must become a nil interface.
+//
+//go:norace
 func Dial(target string, opts ...grpc.DialOption) (PoolConn, error) {
 	c, err := grpc.Dial(target, opts...)
 	if c == nil {
